@@ -408,6 +408,58 @@ def rule_resize_state_order(ctx: Ctx) -> RuleResult:
     return rr
 
 
+def rule_rotten_flag(ctx: Ctx) -> RuleResult:
+    """push_cursor() is the one place that decides, for every character written, whether the cursor is 'rotten'
+    (parked on the last column with the wrap still pending).  Every path through it must decide the flag anew: a
+    path that leaves the old value lets a wrap that was pending under other circumstances fire later."""
+    p = ctx.p
+    rr = RuleResult("PASS", "C15.11", "every path through TermCanvas.push_cursor stores is_rotten_cursor", floor=1)
+    fi = p.func(f"{VT}.TermCanvas.push_cursor")
+    cfg = cfg_of(fi)
+    stores = [n for n in cfg.nodes if isinstance(n.ast, ast.Assign) and any(isinstance(t, ast.Attribute) and t.attr == "is_rotten_cursor" for t in n.ast.targets)]
+    rr.inst("push_cursor", True, {"stores": len(stores)})
+    if not stores:
+        raise AnalysisError("push_cursor: no store to is_rotten_cursor found")
+    if cfg.exit in cfg.reachable([cfg.entry], avoid=stores, labels=("n", "T", "F")):
+        path = cfg.witness_path(cfg.entry, [cfg.exit], avoid=stores, labels=("n", "T", "F"))
+        last_test = next((n for n in reversed(path or []) if n.kind == "test"), None)
+        rr.add(finding("PASS", fi, last_test.stmt if last_test is not None else fi.node, f"a path through push_cursor (via `{norm(last_test.ast, 40) if last_test is not None else '?'}`) writes a character without deciding is_rotten_cursor: a wrap left pending from an earlier state fires on a later character", construct="path without is_rotten_cursor store"))
+    return rr
+
+
+_MIRROR = {ast.Lt: ast.Gt, ast.Gt: ast.Lt, ast.LtE: ast.GtE, ast.GtE: ast.LtE, ast.Eq: ast.Eq, ast.NotEq: ast.NotEq}
+
+
+def rule_linefeed_mirror(ctx: Ctx) -> RuleResult:
+    """linefeed(reverse) has two arms that mirror each other (top of the scroll region / bottom, up / down): the
+    comparison at each position of the reverse arm is the mirror image of the forward arm's (<= vs >=, == vs ==)."""
+    p = ctx.p
+    rr = RuleResult("SIB", "C15.12", "the reverse and forward arms of TermCanvas.linefeed test mirrored conditions", floor=2)
+    fi = p.func(f"{VT}.TermCanvas.linefeed")
+    top = [n for n in fi.own_nodes() if isinstance(n, ast.If) and isinstance(n.test, ast.Name) and n.test.id == fi.params[1]]
+    if not top or not top[0].orelse:
+        raise AnalysisError("linefeed: `if reverse: ... else: ...` not found")
+
+    def chain(stmts):
+        out = []
+        cur = stmts[0] if stmts and isinstance(stmts[0], ast.If) else None
+        while cur is not None:
+            out.append(cur.test)
+            cur = cur.orelse[0] if cur.orelse and isinstance(cur.orelse[0], ast.If) and len(cur.orelse) == 1 else None
+        return out
+
+    a, b = chain(top[0].body), chain(top[0].orelse)
+    if len(a) != len(b) or not a:
+        raise AnalysisError("linefeed: the two arms do not have if-chains of the same length")
+    for i, (x, y) in enumerate(zip(a, b)):
+        rr.inst(f"test {i}", True, {"reverse": norm(x, 50), "forward": norm(y, 50)})
+        ox = [type(o) for c in ast.walk(x) if isinstance(c, ast.Compare) for o in c.ops]
+        oy = [type(o) for c in ast.walk(y) if isinstance(c, ast.Compare) for o in c.ops]
+        if [(_MIRROR.get(o)) for o in ox] != oy:
+            rr.add(finding("SIB", fi, x, f"the reverse arm tests `{norm(x, 50)}` where the forward arm tests `{norm(y, 50)}`: the comparisons are not mirror images, so a reverse line feed above the scroll region scrolls the region although the cursor is outside it (or the forward case differs accordingly)", construct=f"linefeed arms not mirrored at test {i}"))
+    return rr
+
+
 def run(ctx: Ctx):
     p = ctx.p
     tc = f"{VT}.TermCanvas"
@@ -426,6 +478,8 @@ def run(ctx: Ctx):
         rule_resize_width_first(ctx),
         rule_row_fresh(ctx),
         rule_resize_state_order(ctx),
+        rule_rotten_flag(ctx),
+        rule_linefeed_mirror(ctx),
     ]
     return out
 
@@ -434,6 +488,8 @@ from ..mutants import Mut  # noqa: E402
 
 _V = "urwid/vterm.py"
 MUTANTS = [
+    Mut("rotten-flag-kept-at-last-column", "urwid/vterm.py", "TermCanvas.push_cursor", "            if x + 1 < self.width:\n                x += 1\n\n            self.is_rotten_cursor = False", "            if x + 1 < self.width:\n                x += 1\n                self.is_rotten_cursor = False\n", "PASS|vterm.TermCanvas.push_cursor"),
+    Mut("reverse-linefeed-above-region-scrolls", "urwid/vterm.py", "TermCanvas.linefeed", "elif y == self.scrollregion_start:", "elif y <= self.scrollregion_start:", "SIB|vterm.TermCanvas.linefeed"),
     Mut("osc-strict-decode", _V, "TermCanvas.parse_osc", "decode(\"utf-8\", \"replace\")", "decode(\"utf-8\")", "EXC|", note="anchor depends on the fixed tree's decode call"),
     Mut("csi-sanitise-declared-only", _V, "TermCanvas.parse_csi", "for i in range(len(escbuf)):", "for i in range(number_of_args):", "NULLABLE|"),
     Mut("resize-width-stored-late", _V, "TermCanvas.resize", "        self.width = width\n\n        if height > self.height:", "        if height > self.height:", "ORDER|vterm.TermCanvas.resize"),
